@@ -259,7 +259,16 @@ class SymBytes(object):
     def hex(self):
         return "<symhex>"
 
-    def decode(self, *a):
+    def decode(self, encoding="utf-8", errors="strict"):
+        # the resulting text is not modelled (placeholder), but whether the
+        # call raises is: 7-bit codecs refuse any octet >= 80h
+        enc = str(encoding).lower().replace("_", "-")
+        if errors == "strict" and enc in ("ascii", "us-ascii"):
+            for i, a in enumerate(self.items):
+                if a >= 0x80:           # forks when the octet is symbolic
+                    raise UnicodeDecodeError(
+                        "ascii", _bytes(len(self.items)), i, i + 1,
+                        "ordinal not in range(128)")
         return "<symstr>"
 
     def index(self, x):
